@@ -657,11 +657,11 @@ Lemma representatives_cover : forall sets b,
                         signature sets b' = signature sets b.
 Proof.
   intros sets b Hb.
-  pose proof (representatives_lt sets) as HF. rewrite representatives_unfold in *.
+  pose proof (representatives_lt sets) as HF. rewrite Forall_forall in HF.
   destruct (rep_fold_inv sets (seqN 0 256) [] [] eq_refl (Forall_nil _) seqN_256_ok) as [_ Hcov].
   destruct (Hcov b (or_introl (proj2 (in_seqN_256 b) Hb))) as (b' & Hin & Hsig).
-  exists b'. split; [assumption|]. split; [|assumption].
-  rewrite Forall_forall in HF. now apply HF.
+  rewrite <- representatives_unfold in Hin.
+  exists b'. split; [exact Hin|]. split; [exact (HF b' Hin) | exact Hsig].
 Qed.
 
 (* ------------------------------------------------------------------ *)
